@@ -27,6 +27,10 @@ NATIVE = {
         for K in ("UntypedLabel", "Branch")
     ]
     + [
+        ("C03:numpy-count-after-quantity", "histogrammar.primitives.count.Count._numpy", "bounded:numpy-equals-rowwise:count-after-a-quantity-bearing-sibling",
+         "Branch / UntypedLabel whose first child bears a quantity, followed by Counts with no, a linear (0.5 w) and a non-linear (w^2) weight transform; 8 rows incl. nan; weights 1, scalar 2.5, scalar 0, array; whole batch and two batches"),
+    ]
+    + [
         (f"C03:edges-{K}", f"histogrammar.primitives.{_NP_MOD[K]}.{K}._numpy", "bounded:numpy-equals-rowwise:quantities-on-bin-edges",
          "400 random non-dyadic binnings (num in {1..100}, low in {0, -1.5, 0.1, 1e-3, -7, 1000}, 5 widths; up to 7 random centres / edges); batch = every edge (both association orders), each +-1 ulp, nan, low, high, high - 1 ulp, shuffled, weights in {1, 0.5, 2, 3.25}; Count bins (fast path) and Sum bins (bin-by-bin path); the rounding level that the real-arithmetic routing proofs abstract")
         for K in ("Bin", "SparselyBin", "CentrallyBin", "IrregularlyBin", "Stack")
@@ -42,6 +46,10 @@ NATIVE = {
     "C04": [
         ("C04:Stack.build", "histogrammar.primitives.stack.Stack.build", "bounded:built-stack-and-its-clones-interchangeable",
          "Stack.build of three filled Bins (all thresholds NaN, outside the wf of the proved Stack contracts): pickle clone, JSON reload and copy serialise identically and can be merged with the original and with each other, scaled, added to their zero()"),
+        ("C04:numpy-dtypes", "histogrammar.primitives.minmax.Maximize._numpy", "bounded:state-after-non-float64-batches-serialises",
+         "14 trees (7 leaves / containers with Minimize, Maximize, Sum bins) x arrays of dtype int64, int32, float32, bool, two successive fill.numpy batches (the second raising the maximum and lowering the minimum): json.dumps(toJson(), allow_nan=False) works (no numpy scalar is left in a field) and equals the row-wise fill up to 1e-6"),
+        ("C04:string-and-file", "histogrammar.defs.Factory.fromJsonString", "bounded:string-and-file-routes",
+         "every class x 3 child kinds, empty and filled with 5 data (incl. nan, +-inf): toJsonString / toJsonFile are strict JSON equal to the document of toJson; Factory.fromJson(str), fromJsonString, fromJsonFile give what the direct reload of the document gives; the aggregator is unchanged (json.dump / json.load and the file system are external)"),
         ("C04:duplicate-edges", "histogrammar.primitives.irregularlybin.IrregularlyBin.fromJsonFragment", "bounded:repeated-thresholds-survive-the-round-trip",
          "IrregularlyBin and Stack with repeated / unordered thresholds ([1, 1, 3], [3, 1, 1]; outside the wf `strictly increasing` of the proved contracts), Count and Sum bins, filled with 5 data: strict dumps, the reload has as many bins and serialises identically, original + reload = original * 2"),
         ("C04:Bag.json", "histogrammar.primitives.bag.Bag.toJsonFragment", "bounded:json-roundtrip",
@@ -56,6 +64,8 @@ NATIVE = {
          "all single-point structural mutations (delete key, add key, retype value, rename type, negative entries, version) of 6 Bag documents"),
     ],
     "C01": [
+        ("C01:Stack.build", "histogrammar.primitives.stack.Stack.__add__", "bounded:built-stacks-merge-in-any-grouping",
+         "three Stacks made by Stack.build from independently filled Bins (all thresholds NaN, outside the wf of the proved Stack contracts): four orders / groupings of + agree, zero() is a two-sided identity, also for a JSON reload"),
         ("C01:Bag.vector", "histogrammar.primitives.bag.Bag.__add__", "bounded:vector-bags-merge-like-one-fill",
          "Bag of range N2 / N3 (outside the wf of the proved Bag contracts): up to 3 fills of vectors over {0.5, -1, nan, inf} split over two Bags: a + b, b + a, a + zero + b and a += b equal filling everything into one Bag"),
     ],
